@@ -157,19 +157,31 @@ def repaired(text):
     return 'addi x5, x6, 1'
 
 
-def replace_line(node, old, new):
-    import copy
+def count_line(node, text):
+    return sum((e[1] == text) if e[0] == 'line' else count_line(e[1], text) if e[0] == 'inc' else 0 for e in node.entries)
+
+
+def replace_line(node, old, new, only_last=False, _state=None):
+    """Copy of the tree with the planted line replaced.  only_last (twin faults: the same text twice, the LATER one is the fault):
+    only the last occurrence in splice order is replaced, so that the earlier, valid one keeps its size and the layout stays the
+    one the faulty program has."""
+    if _state is None:
+        _state = [count_line(node, old) if only_last else 0]
     n = c14.Node()
     n.name, n.place, n.form, n.alt_lines = node.name, node.place, node.form, node.alt_lines
     for e in node.entries:
         if e[0] == 'line':
-            n.entries.append(('line', new if e[1] == old else e[1]))
+            hit = e[1] == old
+            if hit and only_last:
+                _state[0] -= 1
+                hit = _state[0] == 0
+            n.entries.append(('line', new if hit else e[1]))
         elif e[0] == 'bin':
             n.entries.append(e)
         elif e[0] == 'again':
             continue
         else:
-            n.entries.append(('inc', replace_line(e[1], old, new)))
+            n.entries.append(('inc', replace_line(e[1], old, new, only_last, _state)))
     return n
 
 
@@ -281,7 +293,7 @@ def judge(case, res):
                 fixed_root = os.path.join(root, 'repaired')
                 fsrc = os.path.join(fixed_root, 'p', 'src')
                 os.makedirs(fsrc)
-                ftext = c14.write_tree(replace_line(case['root'], case['fault'], repaired(case['fault'])), fsrc, fixed_root, set(),
+                ftext = c14.write_tree(replace_line(case['root'], case['fault'], repaired(case['fault']), only_last=(case['cls'] == 'twin')), fsrc, fixed_root, set(),
                                        {'depth': 0, 'incdir': False, 'ambiguous': False, 'names': []})
                 with open(os.path.join(fsrc, 'main.asm'), 'w', encoding='utf-8') as f:
                     f.write(ftext)
